@@ -118,3 +118,37 @@ def _bmm_cw(f):
   m = f.get('mode')
   return (f.get('type') == 'BATCH_MATMUL' and m in md.MODES and
           md.wcfg(m)['granularity'] == 'CHANNELWISE')
+
+
+def _up(f):
+  idx = f.get('upstream') or []
+  t, m = f.get('types') or [], f.get('modes') or []
+  v, w = f.get('variants') or [], f.get('wshapes') or []
+  return [(t[i], m[i], v[i] if i < len(v) else None,
+           w[i] if i < len(w) else None) for i in idx if i < len(t)]
+
+
+@trigger('upstream_depthwise_dynamic_tensorwise')
+def _dw_drq_t(f):
+  from vf import modes as md
+  return any(t == 'DEPTHWISE_CONV_2D' and mo in md.MODES and
+             md.kind(mo) == 'DRQ' and
+             md.wcfg(mo)['granularity'] == 'TENSORWISE'
+             for t, mo, _, _ in _up(f))
+
+
+@trigger('upstream_embedding_int4_odd_width')
+def _emb4(f):
+  from vf import modes as md
+  return any(t == 'EMBEDDING_LOOKUP' and mo in md.MODES and
+             md.kind(mo) == 'DRQ' and md.wcfg(mo)['num_bits'] == 4 and
+             w and w[-1] % 2 == 1 for t, mo, _, w in _up(f))
+
+
+@trigger('upstream_bmm_static_channelwise')
+def _bmm_srq_cw(f):
+  from vf import modes as md
+  return any(t == 'BATCH_MATMUL' and v in ('const', 'const_adjy') and
+             mo in md.MODES and md.kind(mo) == 'SRQ' and
+             md.wcfg(mo)['granularity'] == 'CHANNELWISE'
+             for t, mo, v, _ in _up(f))
